@@ -1,5 +1,6 @@
 import IndicatifModel.Model.Template
 import IndicatifModel.Proofs.TemplateFidelity
+import IndicatifModel.Proofs.Render
 /-!
 # C10 — Template parsing is total and preserves literal text
 -/
@@ -77,5 +78,65 @@ example :
     denote items = [.lit "a{".toList, .ph "bar".toList .center (some 40) true (some "cyan".toList) (some "blue".toList),
       .lit "}".toList, .newline, .ph "msg".toList .left none false none none] := by
   refine ⟨by decide +kernel, by decide +kernel, by decide +kernel⟩
+
+/-! ## the rendering clause: `format_state` walks the parts in order (`Model/Render.lean`, stream C10R) -/
+open Render in
+/-- **C10 (rendering).** For every parsed template without a wide element and every bar state whose texts hold no line
+break: the lines `format_state` hands to the draw target are exactly the in-order concatenation of the literal text and
+the placeholder expansions (`linesOf`: a line break part ends a line, text after the last one is a line unless it is
+empty) — so put end to end they are the expansions put end to end, and there is one line per line break of the template
+plus at most one. -/
+theorem C10_render_in_order (env : Env) (parts : List Part)
+    (hnw : ∀ p ∈ parts, NotWide env p) (hex : ∀ p ∈ parts, NoNl (expansion env p)) :
+    formatState env parts = linesOf env [] parts ∧
+    (formatState env parts).flatten = parts.flatMap (expansion env) ∧
+    (parts.filter isNewline).length ≤ (formatState env parts).length ∧
+    (formatState env parts).length ≤ (parts.filter isNewline).length + 1 := by
+  have h : formatState env parts = linesOf env [] parts := by
+    rw [formatState_eq]
+    have := walk_linesOf env parts {} rfl (by intro g hg; simp at hg) hnw hex
+    simpa using this
+  refine ⟨h, ?_, ?_, ?_⟩
+  · rw [h, linesOf_flatten]; simp
+  · rw [h]; exact (linesOf_length env parts []).1
+  · rw [h]; exact (linesOf_length env parts []).2
+
+open Render in
+/-- **C10 (unknown keys expand to nothing).** A key that is neither a custom key nor one of the arms of the match writes
+nothing; with a width the field is that many blanks (the padding of the empty text). -/
+theorem C10_unknown_key_expands_to_nothing (env : Env) (key : List Char) (a : Align) (t : Bool) (s sa : Option (List Char))
+    (hc : env.custom key = none) (hb : ∀ w, env.builtin key w = none) (h1 : key ≠ wideBarKey) (h2 : key ≠ wideMsgKey) :
+    expansion env (.ph key a none t s sa) = [] ∧
+    ∀ n, expansion env (.ph key a (some n) t s sa) = Pad.pad [] n (toPad a) t := by
+  have hf : ∀ w, (fieldText env key (toPad a) w).1 = [] := by
+    intro w; simp [fieldText, hc, hb w, h1, h2]
+  exact ⟨by simp [expansion, hf], fun n => by simp [expansion, hf]⟩
+
+open Render in
+/-- **C10 (from the template text to the lines).** The two halves composed: a template written in the documented grammar
+is parsed to the parts it denotes (`C10_faithful`), and if these hold no wide element the lines are their in-order
+concatenation. -/
+theorem C10_template_renders_in_order (env : Env) (items : List Item) (hok : ∀ i ∈ items, i.ok = true)
+    (hnw : ∀ p ∈ denote items, NotWide env p) (hex : ∀ p ∈ denote items, NoNl (expansion env p)) :
+    (match parse PFix.current (render items) with
+     | .ok parts => some (formatState env parts)
+     | _ => none) = some (linesOf env [] (denote items)) := by
+  rw [C10_faithful items hok]
+  simp only
+  rw [(C10_render_in_order env (denote items) hnw hex).1]
+
+/-- a state for the non-vacuity check below: position 3, no custom keys -/
+def exEnv : Render.Env :=
+  { W := 20, cw := fun _ => 1, custom := fun _ => none,
+    builtin := fun k _ => if k = ['p', 'o', 's'] then some [⟨51, 1, 1⟩] else none,
+    msg := [], bar := fun _ => [] }
+def exParts : List Part :=
+  [.lit ['a', '{'], .ph ['p', 'o', 's'] .right (some 3) false none none, .ph ['x'] .left none false none none, .newline, .lit ['b']]
+
+/-- non-vacuity: two template lines, a padded field, an unknown key, escaped braces -/
+example :
+    (∀ p ∈ exParts, Render.NotWide exEnv p) ∧ (∀ p ∈ exParts, Render.NoNl (Render.expansion exEnv p)) ∧
+    Render.formatState exEnv exParts = [[⟨97, 1, 1⟩, ⟨123, 1, 1⟩, ⟨32, 1, 1⟩, ⟨32, 1, 1⟩, ⟨51, 1, 1⟩], [⟨98, 1, 1⟩]] := by
+  refine ⟨by decide, by decide, by decide⟩
 
 end IndicatifModel.Template
